@@ -111,11 +111,18 @@ structure Tens where
   quant : Option Quant
 deriving Repr, DecidableEq
 
+/-- `(self.dtype.type & BaseType.Int) != 0` as Python evaluates it: `BaseType` is an `enum.Flag`, not an
+    `IntFlag`; a `Flag` value — also the empty `BaseType(0)` that the `&` yields for a float or bool type —
+    never compares equal to the `int` 0, so the test holds for **every** data type (found by the correspondence
+    run: a float32 tensor that carries a scale and a zero point "is quantized"; observation recorded in
+    design.d/C09.md, outside C09's statement). -/
+def intTypeTest (_isInt : Bool) : Bool := true
+
 /-- `Tensor.is_quantized` -/
 def Tens.isQuantized (t : Tens) : Bool :=
   match t.quant with
   | .none => false
-  | .some q => t.isInt && q.isValid
+  | .some q => intTypeTest t.isInt && q.isValid
 
 /-- `check_quantized_tens_scaling_equal(tens_a, tens_b)` -/
 def checkQuantizedTensScalingEqual (a b : Tens) : Bool :=
